@@ -1,21 +1,28 @@
 import StraxModel.Lemmas.ChunkAlg
+import StraxModel.Lemmas.ChunkAlgGen
+import StraxModel.Lemmas.ChunkAlgSingle
 /-
   Property C07 — splitting, concatenating, merging and rechunking obey the laws of chunking.
   Only property theorems and non-vacuity examples live here; the work is in Lemmas/ChunkAlg*.lean, RunOrder.lean,
   SuperrunBad.lean (umbrella Lemmas/ChunkAlg.lean).
 
-  41 theorems.  Naming: `…_partial` = covers only part of the property's quantifier "all sub-run / super-run
+  51 theorems.  Naming: `…_partial` = covers only part of the property's quantifier "all sub-run / super-run
   annotations" (the docstring says which part and what is MISSING); `…_counterexample` / `…_needs_nonneg` = witnesses.
-  * full (29): split_array (§1–4), Chunk.split on any chunk (conservation, separation, refusal, early-latest),
+  * full (38): split_array (§1–4), Chunk.split on any chunk (conservation, separation, refusal, early-latest),
     run dictionaries (`split_merge_runs`), rejections of concatenate / merge, `merge_spec`, `merge_total`,
-    `mergeArrs_col`, diff / gap indices / `getSplits_total`, `generated_argmin0`.
+    `mergeArrs_col`, diff / gap indices / `getSplits_total`, `generated_argmin0`; round 5: the translated source
+    (§8: `generated_loop_eq_scan`, `generated_splitArray_eq_model`, `generated_splitArray_laws`,
+    `generated_splitArray_refuses_iff`, `generated_split_eq_model`, `generated_split_edge_tests`) and Chunk.split on
+    EVERY single-run chunk (§9: `split_total`, `split_early_total`, `split_single_spec` — full siblings of
+    `split_total_partial`, `split_total_annotated_partial`, `split_annotated_spec_partial`).
   * partial (9): plain chunks / streams — `split_total_partial`, `concat_inverse_partial`, `splitOff_any_gaps_partial`,
     `rechunk_stream_partial`, `rechunk_stream_gaps_partial`; tiled sub-run annotations (`Chunk.annotated`) —
     `split_total_annotated_partial`, `split_annotated_spec_partial`, `concat_inverse_annotated_partial`; any stream —
-    `rechunk_stream_annotated_partial`.  NOT covered by plain ∪ tiled: multi-entry `superrun` (`run_id = None`),
-    `subruns = {}`, overlapping / unsorted / empty spans, `promisedContinuity = false`; three open findings live there.
-  * witnesses (3): `splitArray_refuses_iff_needs_nonneg`, `getSplits_counterexample` (fixed D1),
-    `split_concat_product_counterexample` (open finding).  (notes/SUMMARY.md counts by suffix: 30 / 9 / 2.)
+    `rechunk_stream_annotated_partial`.  Still NOT covered by a positive theorem: multi-entry `superrun`
+    (`run_id = None`; three open findings live there), and for concatenate-is-inverse / the rechunker also
+    `subruns = {}`, non-tiled spans, `promisedContinuity = false`.
+  * witnesses (4): `splitArray_refuses_iff_needs_nonneg`, `getSplits_counterexample` (fixed D1),
+    `split_concat_product_counterexample`, `split_total_counterexample` (open finding).
 -/
 namespace Strax.C07
 open Strax
@@ -590,5 +597,161 @@ example : (∀ c ∈ [exAnnBig], c.start ≤ c.stop) ∧ exAnnBig.annotated = tr
 example : LawAbiding exStream = true ∧ (∀ c ∈ exStream, 1 ≤ c.target) ∧
     (rechunkAll (-1) ⟨true, false, none⟩ exStream).toOption.map (fun out => out.map (fun c => (c.start, c.stop, ids c.rows)))
       = some [(0, 4500, [0, 1]), (4500, 7500, [2, 3]), (7500, 9000, [4])] := by decide +kernel
+
+/-! ## 8. the translated source (Generated/SplitArray.lean, regenerated from the Python AST of /repo on every run)
+
+`Generated.SplitArray.step` is the body of the numba loop of `split_array` (every comparison, `max`, constant and
+assignment comes from the source text), `loop` folds it with early exit, `splitArray` is the code around the loop;
+`splitClamp`, `splitAtStop/Start`, `leftStart … rightStop` are the scalar time arithmetic of `Chunk.split`.
+A change of the source (a `>=` into `>`, another initial value, a swapped `min`/`max`) changes these definitions and
+breaks the proofs below — not only the sampled correspondence. -/
+
+/-- the translated loop, started like the source starts it (`latest_end_seen = -1`, `splittable_i = 0`,
+`i_first_beyond = -1`), is the model's `scan` -/
+theorem generated_loop_eq_scan (t : Int) (rows : List Row) :
+    Generated.SplitArray.loop t rows 0 ⟨-1, 0, -1⟩ = encScan (scan t rows 0 (-1) 0) := by
+  simpa using genLoop_eq_scan t rows 0 (-1) 0
+
+/-- the translated `split_array` IS the model all theorems of §1–§4 are about (all inputs) -/
+theorem generated_splitArray_eq_model : Generated.SplitArray.splitArray = splitArray :=
+  funext fun d => funext fun t => funext fun e => genSplitArray_eq d t e
+
+/-- so the laws hold of the translated source directly: conservation, separation (sorted data), exact time in strict mode -/
+theorem generated_splitArray_laws (data : List Row) (t : Int) (early : Bool) (l r : List Row) (t' : Int)
+    (hs : SortedByTime data) (h : Generated.SplitArray.splitArray data t early = .ok (l, r, t')) :
+    l ++ r = data ∧ (∀ x ∈ l, x.endt ≤ t') ∧ (∀ x ∈ r, t' ≤ x.time) ∧ (early = false → t' = t) := by
+  rw [generated_splitArray_eq_model] at h
+  refine ⟨splitArray_append h, (splitArray_sep hs h).1, (splitArray_sep hs h).2, ?_⟩
+  intro he
+  subst he
+  exact splitArray_strict h
+
+/-- … and refusal ⇔ a straddling row (sorted, times ≥ 0), never any other failure in strict mode, none at all in early mode -/
+theorem generated_splitArray_refuses_iff (data : List Row) (t : Int)
+    (hs : SortedByTime data) (hnn : ∀ r ∈ data, 0 ≤ r.time) :
+    (Generated.SplitArray.splitArray data t false = .error .cannotSplit ↔ ∃ r ∈ data, r.straddles t) ∧
+    (∀ e, Generated.SplitArray.splitArray data t false = .error e → e = .cannotSplit) ∧
+    (∃ l r t', Generated.SplitArray.splitArray data t true = .ok (l, r, t')) := by
+  rw [generated_splitArray_eq_model]
+  exact ⟨splitArray_refuses_iff data t hs hnn, fun e h => Strax.splitArray_strict_error h, splitArray_early_total data t⟩
+
+example : Generated.SplitArray.splitArray [⟨0,3,0⟩, ⟨3,6,1⟩, ⟨5,8,2⟩] 7 true = .ok ([⟨0,3,0⟩], [⟨3,6,1⟩, ⟨5,8,2⟩], 3) ∧
+    Generated.SplitArray.splitArray [⟨0,3,0⟩, ⟨2,5,1⟩, ⟨7,9,2⟩] 4 false = .error .cannotSplit ∧
+    Generated.SplitArray.step 7 1 ⟨3,6,1⟩ ⟨3, 0, -1⟩ = (⟨6, 1, -1⟩, false) := by decide
+
+/-- `Chunk.split` (on a chunk whose `is_superrun` does not raise) is the model's `splitCore` when written with the
+translated clamp `t = max(min(t, end), start)`, the translated `split_array` and the translated boundaries of the two
+halves (`start`, `max(start, t)`, `max(start, t)`, `max(t, end)`) -/
+theorem generated_split_eq_model (c : Chunk) (t : Int) (early : Bool) :
+    c.splitCore t early = (do
+      let t := Generated.SplitArray.splitClamp t c.start c.stop
+      let (d1, d2, t) ←
+        if t = c.stop then pure (c.rows, [], t)
+        else if t = c.start then pure ([], c.rows, t)
+        else Generated.SplitArray.splitArray c.rows t early
+      let (sub1, sub2) := if c.promisedContinuity then splitRuns c.subruns t else (c.subruns, c.subruns)
+      let (sup1, sup2) := splitRuns (some c.superrun) t
+      let single (s : Option Runs) : Bool := match s with
+        | none => true
+        | some l => l.length == 1
+      let run1 := if single sup1 then c.superrun.head?.map (·.id) else c.runId
+      let run2 := if single sup2 then c.superrun.getLast?.map (·.id) else c.runId
+      let c1 ← mkChunk c.dataType c.kind run1 (Generated.SplitArray.leftStart t c.start c.stop)
+        (Generated.SplitArray.leftStop t c.start c.stop) d1 sub1 sup1 c.target
+      let c2 ← mkChunk c.dataType c.kind run2 (Generated.SplitArray.rightStart t c.start c.stop)
+        (Generated.SplitArray.rightStop t c.start c.stop) d2 sub2 sup2 c.target
+      pure (c1, c2)) :=
+  splitCore_eq_generated c t early
+
+/-- the two tests of `Chunk.split` that bypass `split_array` are `t == self.end`, then `t == self.start` -/
+theorem generated_split_edge_tests (t start stop : Int) :
+    Generated.SplitArray.splitAtStop t start stop = decide (t = stop) ∧
+    Generated.SplitArray.splitAtStart t start stop = decide (t = start) :=
+  genSplit_edge_tests t start stop
+
+example : Generated.SplitArray.splitClamp 25 0 20 = 20 ∧ Generated.SplitArray.splitClamp (-3) 0 20 = 0 ∧
+    Generated.SplitArray.leftStop 9 0 20 = 9 ∧ Generated.SplitArray.rightStop 9 0 20 = 20 := by decide
+
+/-! ## 9. `Chunk.split` on EVERY single-run chunk (full siblings of `split_total_partial` / `split_total_annotated_partial`)
+
+`Chunk.singleRun` (decidable): rows well-formed (`Chunk.wf`), `run_id = some rid`, the default super-run entry
+`superrun = [(rid, start, end)]`, and ANY sub-run annotation that the constructor leaves as it is (`sortRuns x = x`,
+`_sorted_subruns_check` passes) with no span of negative length: `None`, `{}`, tiled, with holes, zero-length entries,
+spans not reaching the chunk edges (`promised_continuity` false), run id starting with "_" or not.  It contains
+`Chunk.good` and `Chunk.annotated`.  The ONLY annotation shape left out is the multi-entry `superrun` (`run_id = None`),
+where the law is false in strax (`split_concat_product_counterexample`, open finding
+`C07-multirun-annotated-chunk-unsplittable`) — the hypothesis is minimal in that respect. -/
+
+/-- a single-run chunk whose sub-runs leave a hole, contain a zero-length entry and do not reach the chunk's end
+(so `promised_continuity` is false): outside `Chunk.good` and `Chunk.annotated` -/
+def exHoles : Chunk :=
+  ⟨"peaks", "peaks", some "_sr", 0, 20, [⟨1,4,0⟩, ⟨3,8,1⟩, ⟨10,12,2⟩],
+    some [⟨"a", 0, 5⟩, ⟨"z", 9, 9⟩, ⟨"b", 9, 15⟩], [⟨"_sr", 0, 20⟩], 2⟩
+
+/-- the same with the sub-runs reaching both edges (`promised_continuity` true, a hole in the middle) -/
+def exHoles2 : Chunk := { exHoles with subruns := some [⟨"a", 0, 5⟩, ⟨"z", 9, 9⟩, ⟨"b", 9, 20⟩] }
+
+/-- FULL (every annotation of a single-run chunk; multi-run chunks excluded because the law fails there, see above):
+a strict split at a time no row straddles succeeds, and both halves are single-run chunks again -/
+theorem split_total (c : Chunk) (t : Int) (hc : c.singleRun = true) (hno : ¬ ∃ r ∈ c.rows, r.straddles t) :
+    ∃ c1 c2, c.split t false = .ok (c1, c2) ∧ c1.singleRun = true ∧ c2.singleRun = true :=
+  split_single_total hc hno
+
+/-- FULL: with `allow_early_split=True` the split of a single-run chunk never fails, for any `t` -/
+theorem split_early_total (c : Chunk) (t : Int) (hc : c.singleRun = true) :
+    ∃ c1 c2, c.split t true = .ok (c1, c2) ∧ c1.singleRun = true ∧ c2.singleRun = true :=
+  split_single_early_total t hc
+
+/-- FULL: what the halves are — rows divided in order, adjacent at the time used, run id kept, sub-runs = the two
+sides of `_split_runs_in_chunk` (or the untouched dict when continuity is not promised) -/
+theorem split_single_spec (c : Chunk) (t : Int) (early : Bool) (c1 c2 : Chunk) (hc : c.singleRun = true)
+    (h : c.split t early = .ok (c1, c2)) :
+    c1.rows ++ c2.rows = c.rows ∧ c1.start = c.start ∧ c1.stop = c2.start ∧ c2.stop = c.stop ∧
+    c1.runId = c.runId ∧ c2.runId = c.runId ∧ c1.singleRun = true ∧ c2.singleRun = true ∧
+    c1.subruns = (splitSub c c1.stop).1 ∧ c2.subruns = (splitSub c c1.stop).2 := by
+  obtain ⟨d1, d2, t', hv, -, -⟩ := Chunk.split_ok_inv h
+  obtain ⟨hwf, hsub, rid, hrid, hsup⟩ := (Chunk.singleRun_iff c).1 hc
+  obtain ⟨hcat, hst, hts, hl, hr⟩ := splitData_wf hwf hv
+  obtain ⟨h0, hse, hs, hpos, hin⟩ := (Chunk.wf_iff c).1 hwf
+  have hin1 : ∀ x ∈ d1, c.start ≤ x.time ∧ x.endt ≤ t' :=
+    fun x hx => ⟨(hin x (by rw [← hcat]; simp [hx])).1, hl x hx⟩
+  have hin2 : ∀ x ∈ d2, t' ≤ x.time ∧ x.endt ≤ c.stop :=
+    fun x hx => ⟨hr x hx, (hin x (by rw [← hcat]; simp [hx])).2⟩
+  have hex := split_single_ok hrid hsup hsub h0 hst hts hin1 hin2 hv
+  obtain ⟨c1', c2', h', s1, s2, -⟩ := split_single hc hv
+  rw [h] at h' hex
+  simp only [Except.ok.injEq, Prod.mk.injEq] at h' hex
+  obtain ⟨rfl, rfl⟩ := h'
+  obtain ⟨e1, e2⟩ := hex
+  rw [e1, e2]
+  exact ⟨hcat, rfl, rfl, rfl, hrid.symm, hrid.symm, by rw [← e1]; exact s1, by rw [← e2]; exact s2, rfl, rfl⟩
+
+example : exChunk.singleRun = true ∧ exAnn.singleRun = true ∧ exHoles.singleRun = true ∧ exHoles2.singleRun = true ∧
+    ({ exChunk with subruns := some [] } : Chunk).singleRun = true := by
+  have ok : ∀ x : Runs, x.Pairwise (fun a b => runLe a b = true) → runsOverlap x = false →
+      (∀ r ∈ x, r.start ≤ r.stop) → SubrunsOK (some x) := by
+    intro x h1 h2 h3 y hy
+    cases hy
+    exact ⟨sortRuns_of_pairwise h1, h2, h3⟩
+  exact ⟨(Chunk.singleRun_iff _).2 ⟨by decide, (fun x hx => by cases hx), "r0", rfl, rfl⟩,
+    (Chunk.singleRun_iff _).2 ⟨by decide, ok _ (by decide) (by decide) (by decide), "_sr", rfl, rfl⟩,
+    (Chunk.singleRun_iff _).2 ⟨by decide, ok _ (by decide) (by decide) (by decide), "_sr", rfl, rfl⟩,
+    (Chunk.singleRun_iff _).2 ⟨by decide, ok _ (by decide) (by decide) (by decide), "_sr", rfl, rfl⟩,
+    (Chunk.singleRun_iff _).2 ⟨by decide, ok _ (by decide) (by decide) (by decide), "r0", rfl, rfl⟩⟩
+
+example : exHoles.good = false ∧ exHoles.annotated = false ∧ exHoles.promisedContinuity = false ∧
+    exHoles2.annotated = false ∧ exHoles2.promisedContinuity = true ∧
+    (¬ ∃ r ∈ exHoles.rows, r.straddles 9) := by decide +kernel
+
+example : exHoles2.split 9 false = .ok
+    ({ exHoles2 with stop := 9, rows := [⟨1,4,0⟩, ⟨3,8,1⟩], subruns := some [⟨"a", 0, 5⟩], superrun := [⟨"_sr", 0, 9⟩] },
+     { exHoles2 with start := 9, rows := [⟨10,12,2⟩], subruns := some [⟨"b", 9, 20⟩], superrun := [⟨"_sr", 9, 20⟩] }) := by
+  decide +kernel
+
+/-- the hypothesis of `split_total` cannot be weakened to multi-run chunks: `exP` (made by strax's own
+`concatenate(allow_superrun=True)`) is not `singleRun` and its strict split at the unstraddled time 5 fails -/
+theorem split_total_counterexample :
+    exP.singleRun = false ∧ exP.wf = true ∧ (¬ ∃ r ∈ exP.rows, r.straddles 5) ∧ exP.split 5 false = .error .other :=
+  ⟨by simp [Chunk.singleRun, exP], by decide, by decide, by decide +kernel⟩
 
 end Strax.C07
